@@ -19,7 +19,7 @@ pub fn run(ctx: &Ctx) -> &'static str {
     ctx.explore(
         "fault-schedules",
         "generated per-link fault schedules (black-hole both ways, uplink-only loss, reply-only loss, lost handshake replies, receiver forgot the group -> REG_NGP / REG_ERR, socket send errors) on 2..4 links against the cooperative receiver, every timeout setting, both modes, 1 Hz housekeeping with jitter, bursty client traffic with 15 ms flush ticks; monitors: no early teardown, retry spacing, retries keep coming, bounded recovery, clean rejoin, survivors carry on; non-trivial = >= 1 link went down and came back",
-        ctx.tier.pick(400, 12_000),
+        ctx.tier.pick(700, 12_000),
         || faultsim::strategy(horizon),
         |_| |c: &faultsim::Case, o: &mut Obs| faultsim::check(c, o, Which::C08, ctx),
     );
